@@ -10,6 +10,8 @@ ASSUMPTIONS = [
     "claim: for every hierarchical wire of the fixture as starting point, the real _get_hwires(start, selection=ALL) returns exactly "
     "the wires in the connected component of the start under an adjacency relation stated independently from the pin->wire fields "
     "(bounded transitive closure), without duplicates and without raising; hence every member of a net yields the same answer",
+    "the same claim for get_hcables(start, selection=ALL) (hierarchical cables of the connected net; every cable of the fixtures has "
+    "one wire); the narrower selections and get_hpins/get_hports are outside this check",
     "fixtures: 'shared-sub' (a non-leaf definition instanced twice on one net, three levels), 'wire-only' (a cell with two ports "
     "and a net but no children, one level below the top, between two nets of its parent) and, in the thorough tier, 'feed-through' (one inner net on two ports of "
     "a cell that also has a child); deeper hierarchies, buses wider than one bit and the narrower selections are outside this check",
@@ -29,4 +31,13 @@ def jobs(tier):
                                 module="vf.e1.hier_jobs", func="trace_job", timeout=3000,
                                 args=dict(fixture=fx, tier=tier, only_start=s, only_goal=goal,
                                           timeout_ms=400000 if tier == "quick" else 1500000)))
+    # the same closure asked for hierarchical CABLES (get_hcables): exactness from every start of the quick fixtures
+    for fx, n in FIX.items():
+        if fx == "feed-through" and tier == "quick":
+            continue
+        for s in range(n):
+            out.append(dict(name="C12/hcables/%s/start%d" % (fx, s), engine="E1/symheap", module="vf.e1.hier_jobs",
+                            func="trace_job", timeout=3000,
+                            args=dict(fixture=fx, tier=tier, only_start=s, only_goal="exactly-the-connected-net", what="hcables",
+                                      timeout_ms=400000 if tier == "quick" else 1500000)))
     return out
